@@ -8,6 +8,7 @@ ERR-3 every scalar sampler stores a value derived from a sample that passed the 
       sample is not redefined between the test and the store: every stored error is at most `bound` (times the scale) in magnitude
 ERR-4 the `ceil(log2(bound)) < 64` guard of the sampling shape functions is applied to the bound times the placement's scale (the magnitude that is stored as an i64)
 POS-1 an encryption that takes a GLWE / LWE plaintext compares the plaintext's radix with the ciphertext's before moving limbs (entry or a routine it hands the plaintext to)
+RAD-3 (rad.py) limb counts of two objects are combined by min / max only where their radices are known equal
 RND-1 / RND-9 (shared with C06) noise is injected on every path of every encryption; sigma and bound carry the same scale
 RAD-2 (shared) no call of a radix-asserting operation with operands the guards make different
 Not decided: the magnitude of the decryption error (1-norms of secrets, rounding), the plaintext position arithmetic of the normalisations (C08), the mask products (C07/C09).
@@ -492,6 +493,7 @@ def run(res, tier):
     res.rule("ERR-3", "scalar samplers store only samples that passed `|sample| > bound` == false against their own bound parameter")
     res.rule("ERR-4", "the magnitude guard of a Gaussian sampling shape function is applied to the scaled bound the samples are truncated at")
     res.rule("RND-9", "sigma and bound of every Gaussian sampling site carry the same scale factor (shared with C06)")
+    res.rule("RAD-3", "encryption / decryption: min / max of the limb counts of two objects only where their radices are known equal")
     res.rule("POS-1", "encryptions taking a GLWE / LWE plaintext compare its radix with the ciphertext's (entry or a routine the plaintext is handed to)")
     res.assumptions = ["rand_distr::Normal samples N(0, sigma); f64 rounding of the sample adds at most 1/2", "every encryption injects the noise exactly once: RND-1 / RND-7 under C06"]
     cfgs = ["avx-dev"] if tier == "quick" else ["avx-dev", "ref-dev"]
@@ -509,6 +511,9 @@ def run(res, tier):
         from .c06 import rnd9
         n9 = rnd9(p, res)
         res.floor("RND-9", "Gaussian sampling sites", n9, 6)
+        from . import rad
+        nr3 = rad.rad3(p, res, ("poulpy_core::encryption", "poulpy_core::decryption"))
+        res.floor("RAD-3", "limb counts of two objects combined", nr3, 1)
         np1 = pos1(p, res)
         res.floor("POS-1", "encryptions taking a radix-carrying plaintext", np1, 4)
         res.fn_count += n1 + n2 + n3
